@@ -52,13 +52,20 @@ def impl_eval(job):
     np.seterr(all="ignore")
     out = []
     m = _model()
-    for rec in job["recs"]:
+    for n_rec, rec in enumerate(job["recs"]):
         vec = rec["vec"]
         names = ["p%d" % i for i in range(len(vec))]
         prior = {n: _prior_entry(c) for n, c in zip(names, vec)}
         vals = {n: f(c["x"]) for n, c in zip(names, vec)}
+        prior_pid = prior
+        if n_rec % 2 == 1:
+            # the log-prior of a vector is a SUM over parameters (Priors.tla): the order in which the prior dictionary and
+            # the sampled values are written is immaterial, and so is a prior for a parameter that is not estimated
+            prior = {n: prior[n] for n in reversed(names)}
+            prior_pid = dict([("p3" if len(names) < 4 else "p2", ["uniform", 0.0, 1.0])] + list(prior.items())) if len(names) < 4 else prior
+            vals = {n: vals[n] for n in (names[1:] + names[:1])}
         try:
-            pid = PIDInterface(names, m, prior)
+            pid = PIDInterface(names, m, prior_pid)
             lp = pid.check_prior(dict(vals))
             r = {"lp": None if lp is None else float(lp)}
         except BaseException as e:  # noqa
